@@ -4,6 +4,7 @@ import Mathlib.Algebra.BigOperators.Group.List.Basic
 import Mathlib.Tactic.Ring
 import Mathlib.Tactic.Linarith
 import PrimitivModel.Model.KernelsArith
+import PrimitivModel.Lemmas.Shape
 /-
 Lemmas about the loop combinators of Model/KernelsArith.lean (`writeAt`,
 `scatterAddAt`, `scatterSubAt`) and the loop nests (`range2`, `range3`, …):
@@ -448,3 +449,76 @@ theorem sum_range3_flat (n m l : Nat) (g : Nat → α) :
 
 end sums3
 end Primitiv.Arith
+
+/-! ### what the shape rules of the front end establish (used by Props/C11/Arith.lean `front_end_guard_*`) -/
+namespace Primitiv.Arith.Guard
+open Primitiv Primitiv.Spec Primitiv.ShapeL
+
+theorem agree_ok_inv {s : Shape} {o : Option SShape} (h : Agree (.ok s) o) :
+    ∃ t, o = some t ∧ toSpec s = t ∧ s.Canonical := by
+  cases o with
+  | none => exact absurd h (by simp [Agree])
+  | some t => exact ⟨t, rfl, h.1, h.2⟩
+
+theorem mk_some {dims : List Nat} {b : Nat} {t : SShape} (h : Spec.mk dims b = some t) : t = ⟨trim dims, b⟩ := by
+  unfold Spec.mk at h
+  split at h
+  · simp at h
+  · simp only [Option.some.injEq] at h; exact h.symm
+
+/-- the volume of a canonical shape of depth ≤ 4 is the product of its first four axes -/
+theorem canon_vol4 {s : Shape} (h : s.Canonical) (hd : s.dims.length ≤ 4) :
+    s.volume = s.get 3 * (s.get 2 * (s.get 1 * s.get 0)) := by
+  rw [h.vol]
+  unfold Shape.get
+  match hm : s.dims with
+  | [] => simp
+  | [a] => simp
+  | [a, b] => simp [Nat.mul_comm]
+  | [a, b, c] => simp [Nat.mul_comm, Nat.mul_left_comm]
+  | [a, b, c, d] => simp [Nat.mul_comm, Nat.mul_left_comm]
+  | _ :: _ :: _ :: _ :: _ :: _ => rw [hm] at hd; simp at hd
+
+theorem get_of_short {s : Shape} {i : Nat} (h : s.dims.length ≤ i) : s.get i = 1 := by
+  unfold Shape.get; exact getD_ge h
+
+theorem canon_vol3 {s : Shape} (h : s.Canonical) (hd : s.dims.length ≤ 3) :
+    s.volume = s.get 2 * (s.get 1 * s.get 0) := by
+  rw [canon_vol4 h (by omega), get_of_short hd, Nat.one_mul]
+
+theorem canon_vol2 {s : Shape} (h : s.Canonical) (hd : s.dims.length ≤ 2) : s.volume = s.get 1 * s.get 0 := by
+  rw [canon_vol3 h (by omega), get_of_short hd, Nat.one_mul]
+
+theorem canon_vol0 {s : Shape} (h : s.Canonical) (hd : s.dims.length = 0) : s.volume = 1 := by
+  rw [canon_vol2 h (by omega), get_of_short (by omega), get_of_short (by omega)]
+
+/-- the element count of a canonical shape -/
+theorem canon_size {s : Shape} (h : s.Canonical) : s.size = s.batch * s.volume := by
+  rw [size_exact' h, h.vol]
+
+/-- `has_batch() * size`: the full stride for an operand that carries the result's batch, 0 for a batch-1 operand -/
+theorem skipOf_ok {s : Shape} (h : s.Canonical) (size bs : Nat) (hb : bs = s.batch ∨ s.batch = 1) :
+    (skipOf s size = 0 ∧ 1 ≤ s.batch) ∨ (skipOf s size = size ∧ bs ≤ s.batch) := by
+  have hne := h.batch_ne
+  unfold skipOf Shape.hasBatch
+  by_cases hgt : s.batch > 1
+  · right
+    simp only [hgt, decide_true, if_true, true_and]
+    rcases hb with hb | hb <;> omega
+  · left
+    simp only [hgt, decide_false, Bool.false_eq_true, if_false, true_and]
+    omega
+
+theorem compat_max {a b : Nat} (ha : a ≠ 0) (hb : b ≠ 0) (h : (a == b || a == 1 || b == 1) = true) :
+    (max a b = a ∨ a = 1) ∧ (max a b = b ∨ b = 1) := by
+  simp only [Bool.or_eq_true, beq_iff_eq] at h
+  omega
+
+/-- facts about the result of a rule that ends in `mk dims (max a.batch b.batch)` -/
+theorem of_mk {ys : Shape} {dims : List Nat} {b : Nat}
+    (h : Spec.mk dims b = some (toSpec ys)) : ys.dims = trim dims ∧ ys.batch = b := by
+  have := mk_some h
+  simp only [toSpec, SShape.mk.injEq] at this
+  exact this
+
+end Primitiv.Arith.Guard
